@@ -79,10 +79,13 @@ COL_DTYPES = ["float32", "float64", "int32", "int64", "float32", "uint8", "bool"
 def extra_cols(rng, k):
     """the specs of 2-3 extra per-node columns, at least one of them with ndim >= 2 (round-robin over the tails by k)"""
     specs = []
+    flat = rng.random() < 0.4      # every column one value per node: with the standard columns a set of 1-D columns of mixed dtypes (seed C06_m17)
     for j in range(rng.randint(2, 3)):
-        tail = COL_TAILS[(k + j * 3) % len(COL_TAILS)] if j else ND_TAILS[k % len(ND_TAILS)]
+        tail = [] if flat else (COL_TAILS[(k + j * 3) % len(COL_TAILS)] if j else ND_TAILS[k % len(ND_TAILS)])
         specs.append({"name": f"a{j}_" + ("x".join(map(str, tail)) or "s"), "tail": tail, "dtype": rng.choice(COL_DTYPES),
                       "mul": rng.choice([1, 1, 2, 3]), "off": rng.choice([0, 0.25, 1, 7, -3.5])})
+    # ... and always one plain per-node label column of a 64-bit integer type (with the standard columns it makes a mixed int / float set of 1-D columns)
+    specs.append({"name": "lab_s", "tail": [], "dtype": "int64", "mul": rng.choice([1, 3]), "off": rng.choice([0, 7])})
     return specs
 
 
@@ -94,6 +97,9 @@ def col_values(spec, n):
         return (np.floor(a) % 3 == 0) ^ (np.arange(n).reshape([n] + [1] * len(spec["tail"])) % 2 == 1)
     if spec["dtype"] == "uint8":
         return (np.floor(a) % 251).astype(np.uint8)
+    if spec["dtype"] == "int64":
+        # 64-bit labels no double can hold (segment ids, hashes; seed C06_m17: a gather through one float64 table rounds them)
+        return a.astype(np.int64) + np.int64(2 ** 60 + 1)
     return a.astype(spec["dtype"])
 
 
